@@ -365,7 +365,10 @@ def tree_diff(a, b, path=''):
             elif isinstance(va, ast.AST) or isinstance(vb, ast.AST):
                 diffs.extend(tree_diff(va, vb, f'{path}/{f}'))
             elif va != vb:
-                return [(path, a, b)]
+                if isinstance(va, (str, int, float, complex)) and isinstance(vb, (str, int, float, complex)) and f in ('attr', 'id', 'value', 'arg'):
+                    diffs.append((f'{path}/{f}', va, vb))     # a differing name / attribute / constant: a leaf
+                else:
+                    return [(path, a, b)]
         return diffs
     return [] if a == b else [(path, a, b)]
 
@@ -430,6 +433,12 @@ def compare_arms(proj, mod, torch_body, numpy_body, keep=()):
             diffs.append((i, d, x, y))
     if not diffs:
         return 'match', f'{len(A)} statements identical after normalisation', None
+    if len(diffs) == 1 and len(diffs[0][1]) > 1:
+        # several differences inside ONE subscript / slice (e.g. theta[:, :N1] vs theta[:, N1:2*N1]) count as one difference
+        i, d, x, y = diffs[0]
+        pre = [pth.split('/slice')[0] for pth, _, _ in d if '/slice' in pth]
+        if len(pre) == len(d) and len(set(pre)) == 1:
+            return 'single', (f'statement {i + 1}: the arms index differently: torch `{ast.unparse(x)[:80]}` vs numpy `{ast.unparse(y)[:80]}`'), (torch_body, numpy_body, i)
     if len(diffs) == 1 and len(diffs[0][1]) == 1:
         i, d, x, y = diffs[0]
         path, sa, sb = d[0]
